@@ -169,8 +169,8 @@ type InstanceResult struct {
 		TimeS                                float64
 		LastError                            string
 	}
-	WallS float64
-	Err   string
+	WallS       float64
+	Err         string
 	Witness     map[string]uint64
 	WitnessMeta map[string]InputMeta
 }
@@ -270,8 +270,10 @@ func (d *Driver) runInstance(in *Instance) *InstanceResult {
 	opt := Options{Params: in.Params, SuppressSites: map[string]bool{}}
 	noMerge := false
 	timeout := 60000
+	instanceMs := 600000
 	if d.Tier == "thorough" {
 		timeout = 300000
+		instanceMs = 2400000
 	}
 	for k, v := range in.Opt {
 		switch k {
@@ -287,6 +289,8 @@ func (d *Driver) runInstance(in *Instance) *InstanceResult {
 			opt.MaxSteps = v
 		case "timeout_ms":
 			timeout = v
+		case "instance_ms":
+			instanceMs = v
 		case "no_merge":
 			noMerge = v != 0
 		}
@@ -302,6 +306,7 @@ func (d *Driver) runInstance(in *Instance) *InstanceResult {
 	}
 	defer ex.Close()
 	ex.NoMerge = noMerge
+	ex.Deadline = time.Now().Add(time.Duration(instanceMs) * time.Millisecond)
 	if d.debug {
 		last := time.Now()
 		ex.Progress = func(e *Exec) {
@@ -581,11 +586,11 @@ func (d *Driver) Run() int {
 	inconclusive := []string{}
 	var tot struct {
 		paths, normal, oblig, obSolver, obSimp, queries, sat, unsat, unknown, errs int
-		steps                                                                    int64
-		solverS                                                                  float64
-		covers                                                                   map[string]int
-		funcs                                                                    map[string]bool
-		trunc                                                                    map[string]int
+		steps                                                                      int64
+		solverS                                                                    float64
+		covers                                                                     map[string]int
+		funcs                                                                      map[string]bool
+		trunc                                                                      map[string]int
 	}
 	tot.covers = map[string]int{}
 	tot.funcs = map[string]bool{}
@@ -815,38 +820,38 @@ func (d *Driver) Run() int {
 	}
 	sort.Strings(truncList)
 	cov := map[string]interface{}{
-		"evaluations":                   tot.oblig + tot.queries,
-		"distinct_nontrivial":           nontrivial,
-		"rule":                          d.Spec.Rule + " | evaluations = safety/assert obligations examined plus solver queries; distinct_nontrivial = distinct feasible paths (each a distinct path condition) explored in instances where the solver decided at least one branch or obligation",
-		"samples":                       sampleVals,
-		"states":                        tot.paths,
-		"transitions":                   tot.queries,
-		"traces_validated_against_impl": witnessOK + len(jobs),
-		"native_witness_replays":        fmt.Sprintf("%d of %d completed-path models re-executed natively without assertion failure or panic (translator validation); %d counterexample replays", witnessOK, witnessRun, len(jobs)),
-		"instances":                     len(insts),
-		"paths_explored":                tot.paths,
-		"paths_completed":               tot.normal,
-		"ssa_instructions_executed":     tot.steps,
-		"obligations":                   tot.oblig,
-		"obligations_decided_by_solver": tot.obSolver,
+		"evaluations":                       tot.oblig + tot.queries,
+		"distinct_nontrivial":               nontrivial,
+		"rule":                              d.Spec.Rule + " | evaluations = safety/assert obligations examined plus solver queries; distinct_nontrivial = distinct feasible paths (each a distinct path condition) explored in instances where the solver decided at least one branch or obligation",
+		"samples":                           sampleVals,
+		"states":                            tot.paths,
+		"transitions":                       tot.queries,
+		"traces_validated_against_impl":     witnessOK + len(jobs),
+		"native_witness_replays":            fmt.Sprintf("%d of %d completed-path models re-executed natively without assertion failure or panic (translator validation); %d counterexample replays", witnessOK, witnessRun, len(jobs)),
+		"instances":                         len(insts),
+		"paths_explored":                    tot.paths,
+		"paths_completed":                   tot.normal,
+		"ssa_instructions_executed":         tot.steps,
+		"obligations":                       tot.oblig,
+		"obligations_decided_by_solver":     tot.obSolver,
 		"obligations_decided_by_simplifier": tot.obSimp,
-		"solver_queries":                tot.queries,
-		"solver_sat":                    tot.sat,
-		"solver_unsat":                  tot.unsat,
-		"solver_unknown":                tot.unknown,
-		"solver_errors":                 tot.errs,
-		"solver_time_s":                 round2(tot.solverS),
-		"solver":                        "one persistent solver process per instance: z3 4.8.12 (/usr/bin/z3 -in) unless the harness names another back end; back ends used in this run: " + strings.Join(solversUsed(d.Spec), ", "),
-		"functions_under_test":          funcsUnderTest,
-		"lal_functions_executed":        executed,
-		"bounds":                        boundsTxt,
-		"cover_points":                  tot.covers,
-		"concretisation_truncations":    truncList,
-		"known_findings_seen":           knownLines,
-		"inconclusive":                  inconclusive,
-		"status":                        status,
-		"load_and_ssa_build_s":          round2(loadS),
-		"encoding":                      "regenerated from /repo working tree on this run (go/packages + go/ssa, harness overlay)",
+		"solver_queries":                    tot.queries,
+		"solver_sat":                        tot.sat,
+		"solver_unsat":                      tot.unsat,
+		"solver_unknown":                    tot.unknown,
+		"solver_errors":                     tot.errs,
+		"solver_time_s":                     round2(tot.solverS),
+		"solver":                            "one persistent solver process per instance: z3 4.8.12 (/usr/bin/z3 -in) unless the harness names another back end; back ends used in this run: " + strings.Join(solversUsed(d.Spec), ", "),
+		"functions_under_test":              funcsUnderTest,
+		"lal_functions_executed":            executed,
+		"bounds":                            boundsTxt,
+		"cover_points":                      tot.covers,
+		"concretisation_truncations":        truncList,
+		"known_findings_seen":               knownLines,
+		"inconclusive":                      inconclusive,
+		"status":                            status,
+		"load_and_ssa_build_s":              round2(loadS),
+		"encoding":                          "regenerated from /repo working tree on this run (go/packages + go/ssa, harness overlay)",
 	}
 	ev := map[string]interface{}{
 		"property_id": prop,
